@@ -25,7 +25,11 @@ Every way in which the real code falls short is reported as its own violation wi
   {'leftover': 'parent_connect_order'}     parent connect_order keeps (caller, <deleted> callee) ("TODO method port")
   {'leftover': 'ancestor_block_ref'} / {'raises': ...}  a block above the parent that reads a removed port is not updated
   {'lost': 'loopback_connection'}          a parent-level connection between two ports of the replaced child is dropped
-The last four need hierarchies outside the random generator's discipline and come from the directed batch only.
+  {'lost': 'needs_double_buffer'}          a parent update_ff block writes an input port of the replaced child: the new port is not marked
+  {'lost': 'slice_signal'}                 a slice of a child port referenced from the parent is missing from all_signals / all_named_objects
+  {'leftover': 'parent_const'}             the parent's Const tied to a removed port stays in parent consts / as an empty adjacency key
+  {'leftover': 'interface'}                Interface objects of the removed subtree stay (all_named_objects, parent upblk_calls), new ones are not added
+All but the first four and parent_const need hierarchies outside the random generator's discipline and come from the directed batch only.
 """
 import copy, json, random
 
@@ -70,6 +74,10 @@ RULE = ('random: top with 1-3 inputs / 1-2 outputs, depth 1-3, children in attri
         'hierarchy per known failure mode and per feature. One case = one hierarchy + one replacement sequence; a case is '
         'non-trivial if the removed subtree carried at least one of: update_once, M constraint, constant, RD/WR/U constraint, '
         'nested child, or a parent block / constant crossing its boundary')
+
+# generator features that stay off while the code is known to mishandle them (a directed case covers each):
+#   ffkid: probability that an input port of a child is driven by a parent update_ff block -> {'lost': 'needs_double_buffer'}
+FEAT = {'ffkid': 0.15}
 
 MARKERS = ('<deleted>', '<dead>', '<noparent>')
 
@@ -117,14 +125,14 @@ def directed():
   top = _c(9020, 1, 2, items=[_k('c0', plain_leaf(9021)), _b('b0', 'comb', [R('c0', 'out0')], [R('out0')]),
                               _b('b1', 'comb', [R('in0')], [R('out1')])],
            conns=[[R('c0', 'in0'), R('in0')]], rdu=[[R('c0', 'out0'), True, 'b1']], wru=[[R('c0', 'in0'), False, 'b1']])
-  D.append(('parent-value-constraint', top, [{'path': ['c0'], 'new': plain_leaf(9022), 'mode': 'cls'}], {}))
+  D.append(('parent-value-constraint', top, [{'path': ['c0'], 'new': plain_leaf(9022), 'mode': 'cls'}], {'blame': 'parent_value_constraint'}))
   # 4. method port of the child: connected to a caller port of the parent, called there, M-constrained by the parent
   callee = _c(9031, 1, 1, mport=True, items=[_b('b0', 'once', [R('in0')], [R('out0')])],
               mcs=[[['m', R('ping')], ['u', 'b0'], False]])
   callee2 = copy.deepcopy(callee); callee2['uid'] = 9032
   top = _c(9030, 1, 1, caller=['c0'], items=[_k('c0', callee), _b('b0', 'once', [], [], calls_cp=True)],
            conns=[[R('c0', 'in0'), R('in0')], [R('out0'), R('c0', 'out0')]], mcs=[[['u', 'b0'], ['m', R('c0', 'ping')], False]])
-  D.append(('parent-method-port', top, [{'path': ['c0'], 'new': callee2, 'mode': 'cls'}], {}))
+  D.append(('parent-method-port', top, [{'path': ['c0'], 'new': callee2, 'mode': 'cls'}], {'blame': 'parent_M_constraint'}))
   # 5. a block two levels up reads a port of the replaced grandchild
   mid = _c(9041, 1, 1, items=[_k('c0', plain_leaf(9042))], conns=[[R('c0', 'in0'), R('in0')], [R('out0'), R('c0', 'out0')]])
   top = _c(9040, 1, 2, items=[_k('c0', mid), _b('b0', 'comb', [R('c0', 'c0', 'out0')], [R('out1')])],
@@ -135,7 +143,7 @@ def directed():
   lb2 = copy.deepcopy(lb); lb2['uid'] = 9052
   top = _c(9050, 1, 1, items=[_k('c0', lb)],
            conns=[[R('c0', 'in0'), R('in0')], [R('c0', 'out1'), R('c0', 'in1')], [R('out0'), R('c0', 'out0')]])
-  D.append(('parent-loopback', top, [{'path': ['c0'], 'new': lb2, 'mode': 'cls'}], {'noloop': True}))
+  D.append(('parent-loopback', top, [{'path': ['c0'], 'new': lb2, 'mode': 'cls'}], {'noloop': True, 'blame': 'loopback_connection'}))
   # 7. same path replaced three times, then a path inside the installed subtree, nested children with constants
   def nest(uid):
     return _c(uid, 1, 1, wires=['w0'], items=[_k('c0', plain_leaf(uid + 1)), _b('b0', 'comb', [R('c0', 'out0'), R('w0')], [R('out0')])],
@@ -153,6 +161,41 @@ def directed():
            consts=[[R('d0[1]', 'in1'), 3]])
   D.append(('placeholders', top, [{'path': ['d0[1]'], 'new': plain_leaf(9073, 2, 1), 'mode': 'cls'},
                                   {'path': ['d0[0]'], 'new': nest(9074), 'mode': 'obj'}], {}))
+  # 9./10. parent update_once block CALLS the method port of list children; the child is replaced once (class) and
+  #         a second time (instance); with the M(ping) < U(publishing block) constraint in the child, and without it
+  def acc(uid, with_m):
+    b = _b('b0', 'once', [], [R('out0')], pub=with_m)
+    return _c(uid, 0, 1, mport=True, items=[b], mcs=[[['m', R('ping')], ['u', 'b0'], False]] if with_m else [])
+  for n, with_m in ((9080, True), (9090, False)):
+    top = _c(n, 1, 2, items=[_k('d0[0]', acc(n + 1, with_m)), _k('d0[1]', acc(n + 2, with_m)),
+                             _b('b0', 'once', [], [], mcalls=[R('d0[0]', 'ping'), R('d0[1]', 'ping')])],
+             conns=[[R('out0'), R('d0[0]', 'out0')], [R('out1'), R('d0[1]', 'out0')]])
+    D.append(('parent-calls-method' + ('-M' if with_m else ''), top,
+              [{'path': ['d0[1]'], 'new': acc(n + 3, with_m), 'mode': 'cls'},
+               {'path': ['d0[1]'], 'new': acc(n + 4, with_m), 'mode': 'obj'},
+               {'path': ['d0[0]'], 'new': acc(n + 5, with_m), 'mode': 'cls'}], {}))
+  # 11. a parent update_ff block drives an input port of the replaced child (needs_double_buffer of the new port)
+  top = _c(9100, 1, 1, items=[_b('b0', 'ff', [R('in0')], [R('c0', 'in0')]), _k('c0', plain_leaf(9101))],
+           conns=[[R('out0'), R('c0', 'out0')]])
+  D.append(('parent-ff-writes-child', top, [{'path': ['c0'], 'new': plain_leaf(9102), 'mode': 'cls'}], {'blame': 'needs_double_buffer'}))
+  # 12. slices of the child's port referenced from the parent (a connection and a block read): outside the model
+  top = _c(9110, 1, 2, wires=['w0'], items=[_k('c0', plain_leaf(9111)),
+             _b('b0', 'comb', [], [], body=['s.out1 @= zext( s.c0.out0[4:8], 8 )']),
+             _b('b1', 'comb', [R('w0')], [R('out0')])],
+           conns=[[R('c0', 'in0'), R('in0')]], raw=['connect( s.w0[0:4], s.c0.out0[0:4] )'])
+  D.append(('parent-slices', top, [{'path': ['c0'], 'new': plain_leaf(9112), 'mode': 'obj'}], {'nomodel': True, 'blame': 'slice_signal'}))
+  # 13. a constant tied by the parent to an input port of the replaced child (the old Const object)
+  top = _c(9120, 1, 1, items=[_k('c0', plain_leaf(9121, 2, 1))], conns=[[R('c0', 'in0'), R('in0')], [R('out0'), R('c0', 'out0')]],
+           consts=[[R('c0', 'in1'), 5]])
+  D.append(('parent-const', top, [{'path': ['c0'], 'new': plain_leaf(9122, 2, 1), 'mode': 'cls'}], {}))
+  # 14. the parent calls a non-blocking interface of the replaced child: outside the model
+  def nbq(uid):
+    return _c(uid, 0, 1, nbifc=True, items=[_b('b0', 'once', [], [R('out0')], pub=True)],
+              raw_end=['s.add_constraints( M(s.enq) < U(b0) )'])
+  top = _c(9130, 1, 1, items=[_k('c0', nbq(9131)),
+             _b('b0', 'once', [], [], body=['if s.c0.enq.rdy(): s.c0.enq( int(s.in0) )'])],
+           conns=[[R('out0'), R('c0', 'out0')]])
+  D.append(('parent-calls-interface', top, [{'path': ['c0'], 'new': nbq(9132), 'mode': 'cls'}], {'nomodel': True, 'blame': 'interface'}))
   return D
 
 # ----------------------------------------------------------------------------------------------- one case
@@ -184,12 +227,16 @@ def crossing(parent, slot):
       if any(r[0][:1] == [slot] for r in it['reads']): f.add('parent-blk-read')
       if any(r[0][:1] == [slot] for r in it['writes']): f.add('parent-blk-write')
       if it['func'] and any(r[0][:1] == [slot] for r in it['reads'] + it['writes']): f.add('parent-func')
+      if any(r[0][:1] == [slot] for r in it.get('mcalls', [])): f.add('parent-blk-call')
   if any(r[0][:1] == [slot] for r, _ in parent['consts']): f.add('parent-const')
   if any(a[0][:1] == [slot] or b[0][:1] == [slot] for a, b in parent['conns']): f.add('parent-connect')
   return f
 
 def leftover_name(where, what, note):
   w = where.split('.', 1)[1]
+  if 'Ifc' in what.split('<')[-1]: return 'interface'
+  if what.startswith('orphan-const'): return 'parent_const'
+  if what.startswith('unregistered'): return 'slice_signal' if '[' in what and ':' in what else 'unregistered'
   if w == 'all_update_once' or (where.startswith('local') and w == 'update_once'): return 'update_once'
   if w == 'all_M_constraints': return None        # classified per tuple below
   if w == 'M_constraints': return 'parent_M_constraint'
@@ -203,12 +250,15 @@ def leftover_name(where, what, note):
   return where
 
 FIELD_NAME = {'once': 'update_once'}
+LOST = {'loopback_connection', 'slice_signal', 'needs_double_buffer'}
 PRIORITY = ['update_once', 'M_constraints', 'adjacency_const', 'RD_WR_U_empty_key']
 
 def diff_name(field, extra, missing):
   """signature name of a by-name difference between the replaced and the from-scratch design"""
   ents = extra + missing
   if field in FIELD_NAME: return FIELD_NAME[field]
+  if field == 'dbuf': return 'needs_double_buffer'
+  if field == 'sig' and missing and not extra and all(':' in e for e in missing): return 'slice_signal'
   if field == 'mc':
     return 'M_constraints' if all('<dead>' in e for e in extra) and not missing else 'parent_M_constraint'
   if field in ('read', 'write', 'call'):
@@ -254,7 +304,7 @@ def special_leftovers(top):
 
 def sim_trace(t, spec, inputs):
   from pymtl3.dsl import Signal
-  names = sorted(repr(x) for x in t.get_all_object_filter(lambda x: isinstance(x, Signal)))
+  names = sorted(n for n in (repr(x) for x in t.get_all_object_filter(lambda x: isinstance(x, Signal))) if ':' not in n)
   t.apply(DefaultPassGroup())
   t.sim_reset()
   tr = []
@@ -267,6 +317,8 @@ def sim_trace(t, spec, inputs):
 def run_case(ck, case, verbose=False, report=True):
   """returns the list of (kind, signature, detail) found by the direct oracle; model comparison -> ck.disagreement"""
   spec0, steps, flags = case['spec'], case['steps'], case.get('flags', {})
+  nomodel = flags.get('noloop') or flags.get('nomodel')
+  sigkey = lambda n: 'lost' if n in LOST else 'leftover'
   found = []
   def viol(kind, sig, detail):
     found.append((kind, sig, detail))
@@ -306,7 +358,7 @@ def run_case(ck, case, verbose=False, report=True):
   t = top_cls(spec0['k']); t.elaborate()
   obs0 = U.observe(t)
   if U.scan(t): raise InfraError(f'fresh design is not clean: {U.scan(t)[:3]}')
-  compare('elaborate', m_elab, obs0)
+  if not nomodel: compare('elaborate', m_elab, obs0)
 
   # _delete_component alone, on a second instance
   td = top_cls(spec0['k']); td.elaborate()
@@ -324,15 +376,16 @@ def run_case(ck, case, verbose=False, report=True):
     obs_d = U.observe(td)
     pfx = 's' + ''.join('.' + x for x in p0)
     under = [e for f in U.FIELDS for e in obs_d[f] if not stale(e) and (pfx + '.' in e or pfx + ' ' in e or pfx + ')' in e)]
-    if under: viol('leftover', {'leftover': 'name_under_path_after_delete'}, {'entries': under[:8]})
     dnames = {}
     for where, what, note in U.scan(td):
       n = leftover_name(where, what, note)
       if n: dnames.setdefault(n, []).append([where, what, note])
     for n, l in special_leftovers(td).items(): dnames.setdefault(n, []).extend(l)
+    dnames.pop('parent_const', None)     # between delete and add the parent's constant is merely waiting to be re-connected
+    if under and not dnames: viol('leftover', {'leftover': 'name_under_path_after_delete'}, {'entries': under[:8]})
     for n, l in sorted(dnames.items(), key=order):
-      viol('leftover', {'leftover': n}, {'after': '_delete_component', 'path': p0, 'reachable': l[:6]})
-    if m_del is not None and not flags.get('noloop'):
+      viol('leftover', {sigkey(n): n}, {'after': '_delete_component', 'path': p0, 'reachable': l[:6]})
+    if m_del is not None and not nomodel:
       compare('delete-left', m_del[0], obs_d)
       skip = ('read', 'write', 'call') if 'ancestor_block_ref' in dnames else ()
       msaved = sorted(e for f in ('edge', 'read', 'write', 'call') if f not in skip for e in m_del[1][f])
@@ -395,10 +448,9 @@ def run_case(ck, case, verbose=False, report=True):
     for n, detail in sorted(by.items(), key=order):
       names_seen.add(n)
       detail['step'] = i; detail['path'] = path
-      if n == 'loopback_connection': viol('lost', {'lost': n}, detail)
-      else: viol('leftover', {'leftover': n}, detail)
+      viol(sigkey(n), {sigkey(n): n}, detail)
     # model second
-    if not flags.get('noloop'):
+    if not nomodel:
       compare(f'build[{i}]', m_bld[i], obs_s)
       if m_rep[i] is None:
         if report: ck.disagreement('replace-unresolved', case, 'err unresolved', 'replaced')
@@ -427,9 +479,8 @@ def run_case(ck, case, verbose=False, report=True):
       def classify(kind, tr_or_exc):
         """attribute a simulation difference to a leftover only if the directed case says so, or if purging
         that leftover from an identically rebuilt replaced design makes the difference disappear"""
-        if flags.get('noloop'): return {'lost': 'loopback_connection', 'effect': 'simulation'}
-        for n in ('parent_value_constraint', 'parent_M_constraint'):
-          if n in names_seen and case['kind'].startswith('directed:'): return {'leftover': n, 'effect': 'simulation'}
+        n = flags.get('blame')
+        if n and n in names_seen and case['kind'].startswith('directed:'): return {sigkey(n): n, 'effect': 'simulation'}
         if 'update_once' in names_seen:
           t2 = top_cls(spec0['k']); t2.elaborate()
           for st in steps:
@@ -470,8 +521,10 @@ def random_case(rng, g, idx):
     else: path = list(rng.choice(ps))
     old = U.sub(cur, path)
     mode = rng.choice(['cls', 'obj'])
+    parent = U.sub(cur, path[:-1])
+    called = any(r[0] == [path[-1]] for it in parent['items'] if it['t'] == 'blk' for r in it.get('mcalls', []))
     new = g.spec(old['nin'], old['nout'], rng.choice([0, 0, 1, 2]) if len(path) < 3 else 0,
-                 k=old['k'] if mode == 'cls' else None)
+                 k=old['k'] if mode == 'cls' else None, mport=True if called else None)
     steps.append({'path': list(path), 'new': new, 'mode': mode})
     cur = U.subst(cur, path, new)
   inputs = [[rng.randint(0, 255) for _ in range(spec['nin'])] for _ in range(5)]
@@ -482,7 +535,7 @@ def nontrivial(case):
   for st in case['steps']:
     old = U.sub(cur, st['path']); parent = U.sub(cur, st['path'][:-1])
     if (features(old) & {'once', 'M', 'const', 'RDU', 'WRU', 'UU', 'nested'}) or \
-       (crossing(parent, st['path'][-1]) & {'parent-blk-read', 'parent-blk-write', 'parent-const'}):
+       (crossing(parent, st['path'][-1]) & {'parent-blk-read', 'parent-blk-write', 'parent-blk-call', 'parent-const'}):
       return True
     cur = U.subst(cur, st['path'], st['new'])
   return False
@@ -504,6 +557,7 @@ def run(ck):
     ck.hist('kind', 'directed')
   n = 300 if ck.tier == 'quick' else 5000
   g = U.Gen(rng)
+  g.feat = FEAT
   for idx in range(n):
     case = random_case(rng, g, idx)
     run_case(ck, case)
